@@ -185,9 +185,26 @@ def plan_C19(b, tier, seed):
         t += [B_curve(b, c, seed + 3, 4000, "group", 2400) for c in BIG_CURVES]
     return t
 
-PLANS = {"C11": plan_C11, "C19": plan_C19, "C07": plan_C07, "C08": plan_C08, "C03": plan_C03, "C04": plan_C04, "C12": plan_C12, "C01": plan_C01, "C02": plan_C02, "C15": plan_C15}
+def A_ser(b, cfg, mode, workers=8):
+    return lambda: toy_replay(b, "ser", "MC_Ser", cfg, mode, workers=workers)
+SER_CURVES_Q = ["sw13_0_2", "sw13_1_0", "te13_1_7", "sw61_0_2", "te61_1_7", "sw127_1_1", "te127_1_5", "sw251_0_2", "te251_1_2", "sw_f7_2_a0"]
+
+def plan_C09(b, tier, seed):
+    cs = SER_CURVES_Q if tier == "quick" else SER_CURVES_Q + ["sw19_0_8", "sw23_1_16", "sw31_1_29", "te29_1_2", "te13_2_4", "sw_f7_2_a1", "sw_f7_3_a0", "sw17_1_3"]
+    t = []
+    for c in cs:
+        t += [A_ser(b, c, "field"), A_ser(b, c, "point")]
+    return t
+def plan_C10(b, tier, seed):
+    cs = ["sw13_1_0", "sw13_1_4", "sw19_0_8", "te13_1_7", "te13_2_4", "sw251_0_2", "te251_1_2", "sw127_1_1", "te127_1_5", "sw_f7_2_a0"]
+    if tier != "quick": cs += ["sw13_0_4", "sw23_1_16", "sw31_1_29", "te29_1_2", "te29_2_3", "sw61_0_2", "te61_1_7", "sw_f7_2_a1"]
+    return [A_ser(b, c, "point") for c in cs] + [A_ser(b, c, "field") for c in cs[:4]]
+
+PLANS = {"C09": plan_C09, "C10": plan_C10, "C11": plan_C11, "C19": plan_C19, "C07": plan_C07, "C08": plan_C08, "C03": plan_C03, "C04": plan_C04, "C12": plan_C12, "C01": plan_C01, "C02": plan_C02, "C15": plan_C15}
 
 RULES = {
+ "C09": "A: for toy curves over fields with 4, 6, 7 and 8-bit moduli (so 4, 2, 1, 0 spare bits in the top byte; 2-bit and 1-bit flags that fit exactly or spill into an extra byte) and over F_{7^2}: every field element x every flag kind x every flag value: bytes and advertised size; EVERY byte string of the encoded length, one shorter and one longer (<= 2 bytes): decoding outcome, decoded value, flag and bytes consumed (TLC proves Decode.Encode = id and, for field elements, Encode.Decode = id on the specification); every curve point x compressed/uncompressed through affine and rescaled projective serializers and an exact-size buffer",
+ "C10": "A: EVERY byte string of length 0..size (<= 2 bytes) offered as compressed / uncompressed encoding with validation on and off, on toy curves with cofactor 1, 2, 4, 8, 18, 20, 36 (so most decodable points lie outside the subgroup) and x-coordinates without a root: error vs Ok, the decoded point, panics; with validation the returned point must be on the curve and in the prime-order subgroup",
  "C11": "A: EVERY element of toy fields (p = 3 mod 4: 7,11,31; two-adicity 2..8: 13,17,97,193,257; F_{p^2}, F_{p^3} with configured constants, F_{p^4}, F_{p^6} = 2 over 3) through sqrt / sqrt_in_place (relation: a root is returned exactly for squares and squares back), legendre (Euler criterion by norm descent, checked by TLC against the existence of a root); exhaustive traces over F_12289 and F_40961 (two-adicity 12, 13); B: shipped fields and the zoo (two-adicity up to 47; Goldilocks 32) with squares, non-squares and boundary values",
  "C19": "A: eq / cmp / hash-consistency / is_zero / is_one on all pairs of toy field and tower elements, of boundary big integers, of curve points in ALL pairs of projective representatives (equality and hashing must not depend on the representative; affine vs projective), of polynomials in dense and sparse form; B: the same queries inside full-size traces where equal values arise along different operation sequences",
  "C08": "A: PolyMachine over toy prime fields: all ordered pairs of polynomials of degree < DEG x add/sub/mul/div/scaled add/eq in every dense/sparse mix and API variant (operators by value/reference, assign forms, naive and FFT products, the four divide_with_q_and_r mixes); every polynomial x scaling, evaluation, canonical-form conversions, vanishing-polynomial mul/div and evaluate_over_domain / interpolate over every small domain and coset (radix-2, mixed-radix, general), including polynomials longer than the domain. Results are compared as STORED coefficient vectors, so non-canonical results are visible. non-trivial = register changed or a non-zero value returned",
@@ -207,6 +224,10 @@ PREDICATES = {"glv_mul_outside_subgroup": _glv_outside}
 HOOK_COMMITS = []
 NOT_APPLICABLE = {}
 META = {
+ "C09": {"text": "Codec defines the encodings as total functions between values and byte sequences (size formula, flag placement, sign conventions from the field's order); TLC checks the round-trip and uniqueness theorems on the specification and emits the expected outcome for every value and every byte string of toy configurations; the harness requires the real serializers (all entry points, affine and projective, exact-size buffers) to produce exactly those bytes, sizes, values, flags and consumed lengths.",
+         "note": "Exhaustive over byte strings up to 2 bytes (toy moduli up to 8 bits; F_{7^2}); full-size fields and the ZCash-format override of curves/bls12_381 are covered by trace validation when vh-curves is built (see DESIGN)."},
+ "C10": {"text": "Deserialize is specified as a total function: error, or the point the bytes denote, and with validation only points of the prime-order subgroup (defined as r.P = O on the specification's own group law). TLC enumerates every byte string and predicts the outcome; panics or reading past the advertised size are violations.",
+         "note": "Same toy scope as C09; cofactors up to 36."},
  "C11": {"text": "FieldMachine.Sqrt is a relation (some root iff square, root^2 = x, sqrt(0) = 0) and Legendre is Euler's criterion evaluated by norm descent; TLC proves on every toy field that both agree with the existence of a root, explores every element, and the harness replays sqrt, sqrt_in_place and legendre on the real algorithms (p = 3 mod 4 shortcut, Tonelli-Shanks for every two-adicity up to 13 exhaustively, quadratic-extension and cubic-extension algorithms). Full-size traces cover shipped fields.",
          "note": "Curve coordinate-recovery helpers (get_ys_from_x / get_xs_from_y) are exercised through the C09/C10 decompression checks. Fields without a configured algorithm (Fp6 3-over-2, Fp12) are outside the property."},
  "C19": {"text": "Eq / Ord / Hash / is_zero / is_one are Query actions of the Field, BigInt, Curve and Poly machines defined as equality / integer order / documented lexicographic order of ABSTRACT values; TLC checks the total-order behaviour implicitly by enumerating all pairs, and the harness evaluates ==, !=, cmp, partial_cmp, <, > and hashing on every pair of representatives.",
